@@ -95,6 +95,9 @@ type enc struct {
 	entryAt         int
 	lastModel       map[string]string
 	usedSpecs       map[string]bool
+	dropAssert      map[int]bool
+	allocSites      []string // one constant per allocation site: different sites never yield the same object
+	siteOrd         map[ssa.Instruction]int
 	siteExtra       map[string]cval          // extra names for the site assertions of the current instruction
 	usedFCs         map[*FuncContract]string // contracts applied at call sites -> callee key
 	usedSites       map[string]bool
@@ -876,6 +879,7 @@ func (e *enc) allocFresh(n string) {
 	nv := e.bump("G_now")
 	e.assume(fmt.Sprintf("(= %s (+ %s 1))", nv, old))
 	e.localAlloc[n] = true
+	e.allocSites = append(e.allocSites, n)
 }
 
 // ---- obligations ----
